@@ -160,6 +160,11 @@ def run(ctx):
                 kwh = dict(T=float(rng.choice([1e4, 262144.0, 1e6])), M=float(rng.choice([4.5, 5.0])), W=float(rng.choice([0, 0.5, 1.0])))
                 if rng.random() < 0.5:
                     kwh = {k_: kwh[k_] for k_ in list(kwh)[:int(rng.integers(1, 3))]}
+            if rng.random() < 0.7:
+                # other library operations on the sample or on a copy / slice / view of it, results discarded: none of them is
+                # documented to change its input, so the sample still answers as a fresh load does
+                seq.append(zoo.bystander(F, rng, sh))
+                ctx.counters['chk:history:bystander-ops'] += 1
             seq.append((p, nbh, scl, kwh))
             o1 = core.attempt(lambda: sh.hist_bins(p, nbh, scl, **kwh))
             o2 = core.attempt(lambda: fresh().hist_bins(p, nbh, scl, **kwh))
